@@ -173,6 +173,11 @@ def shape_multiref(rng):
     elif variant == "output-only":
         c = plugin_step("c", Expr(concat(ta, tb)))
     outs = {"success": {"c": tagref("c"), "x": Expr(ta), "y": Expr(concat(ta, tb)), "z": [Expr(tb), Expr(concat(tb, ta))]}}
+    if rng.random() < 0.5:
+        # b is referred to only from inside the two-reference expression: its edge exists only if that expression is handled fully
+        del outs["success"]["z"]
+        if variant != "output-only":
+            del outs["success"]["c"]
     return [a, b, c], outs
 
 
